@@ -314,8 +314,8 @@ fn run(ctx: &mut Ctx) {
     // ---- very busy events (thousands of avalanches: any cap, pre-allocation or early exit that depends on how many
     // there are would cut different avalanches in different placements), and events whose pads have different lengths
     // from one chip to the next (requested_samples is per PWB packet)
-    ctx.cases("busy-and-uneven", ctx.tier.pick(6, 48), |ctx, i, rng| {
-        if i % 2 == 0 {
+    ctx.cases("busy-and-uneven", ctx.tier.pick(24, 96), |ctx, i, rng| {
+        if i % 6 == 0 {
             let (nc, nt, per) = (20 + rng.usize(8), 36 + rng.usize(10), 5 + rng.usize(3));
             let (wires, pads) = busy_event(&m, rng, nc, nt, per);
             let n = avalanches(ctx, &wires, &pads).map(|a| a.len()).unwrap_or(0);
@@ -326,8 +326,9 @@ fn run(ctx: &mut Ctx) {
             let rots = [8usize, 13 + rng.usize(10), 31, 1 + rng.usize(7)];
             check_event(ctx, &wires, &pads, &rots, "very busy event");
         } else {
-            let occ = occupancy(rng, 4);
-            let nh = 6 + rng.usize(10);
+            // several blocks of wires (random occupancy, or blocks near the seam), many hits, late ones included
+            let occ = occupancy(rng, if i % 2 == 0 { 0 } else { 4 });
+            let nh = 12 + rng.usize(24);
             let (mut wires, mut pads) = random_hits(&m, rng, &occ, nh, 300, 1.0, true);
             // wires too: every ADC packet has its own number of samples
             for (w, s) in wires.iter_mut() {
